@@ -7,6 +7,10 @@ type C09Case struct {
 	Steps []string `json:"steps"` // e.g. "dial-noaccept:host"
 	// CloseRace (gRPC kinds): the final close races with eight goroutines announcing listeners on both sides
 	CloseRace bool `json:"closeRace,omitempty"`
+	// PeerGoneFirst (gRPC kinds): a host-side AcceptAndServe is pending (nobody dials it) when the plugin's
+	// gRPC server is stopped, so that the broker's control stream ends by itself; only then is the client
+	// closed. The pending AcceptAndServe must return.
+	PeerGoneFirst bool `json:"peerGoneFirst,omitempty"`
 }
 
 type C09Step struct {
@@ -32,6 +36,10 @@ type C09End struct {
 	CloseRaced bool   `json:"closeRaced,omitempty"`
 	StormStuck int    `json:"stormStuck,omitempty"` // announcing goroutines that had not returned 20 s after the close
 	StormDump  string `json:"stormDump,omitempty"`
+	// PeerGoneFirst: the pending AcceptAndServe had not returned brokerH after the close
+	PendingStuck bool   `json:"pendingStuck,omitempty"`
+	PendingDump  string `json:"pendingDump,omitempty"`
+	PeerGone     bool   `json:"peerGone,omitempty"`
 }
 
 // C09Leak is emitted once per host child (case -1) after every pair was closed.
